@@ -127,6 +127,42 @@ def Group.get (g : Group) (enabled : Bool) (key now : Nat) : Group × AnyShedder
     let a := newShedder enabled g.opts now
     (g.set key a, a)
 
+/-! ### where the services build their shedders: rest/engine.go, zrpc/server.go -/
+
+/-- `topCpuUsage` of rest/engine.go. -/
+def topCpuUsage : Int := 1000
+
+/-- the threshold of the priority shedder: `(c.CpuThreshold + topCpuUsage) >> 1`. -/
+def priorityThreshold (t : Int) : Int := (t + topCpuUsage) / 2
+
+/-- `engine.shedder` / `engine.priorityShedder` (nil = `none`). -/
+structure Engine where
+  shedder  : Option AnyShedder
+  priority : Option AnyShedder
+  deriving Repr
+
+/-- `newEngine(c)`: both shedders are built iff `c.CpuThreshold > 0`, each by `NewAdaptiveShedder(WithCpuThreshold(…))`
+(so `load.Disable()` before it makes both nop shedders). -/
+def newEngine (enabled : Bool) (cpuThreshold : Int) (now : Nat) : Engine :=
+  if cpuThreshold > 0 then
+    { shedder := some (newShedder enabled [.threshold cpuThreshold] now)
+      priority := some (newShedder enabled [.threshold (priorityThreshold cpuThreshold)] now) }
+  else { shedder := none, priority := none }
+
+/-- `engine.getShedder(priority)`. -/
+def Engine.getShedder (e : Engine) (priority : Bool) : Option AnyShedder :=
+  if priority && e.priority.isSome then e.priority else e.shedder
+
+/-- the shedder a route's chain gets: `if ng.conf.Middlewares.Shedding { SheddingHandler(ng.getShedder(fr.priority), …) }`;
+`none` = no shedding middleware, or `SheddingHandler(nil, …)` which is the identity (`httpServe true`). -/
+def routeShedder (sheddingMiddleware : Bool) (e : Engine) (priority : Bool) : Option AnyShedder :=
+  if sheddingMiddleware then e.getShedder priority else none
+
+/-- zrpc/server.go `setupUnaryInterceptors`: `if c.CpuThreshold > 0 { UnarySheddingInterceptor(NewAdaptiveShedder(
+WithCpuThreshold(c.CpuThreshold)), …) }`. -/
+def rpcServerShedder (enabled : Bool) (cpuThreshold : Int) (now : Nat) : Option AnyShedder :=
+  if cpuThreshold > 0 then some (newShedder enabled [.threshold cpuThreshold] now) else none
+
 /-! ### the call sites -/
 
 namespace Site
